@@ -133,6 +133,25 @@ func driveAllocs(s *shardSet, rng *rand.Rand, thorough bool) ([]string, map[stri
 			}
 		}
 	}
+	for _, ty := range []string{"float64", "int64", "uint", "float32", "int16"} {
+		for _, ch := range []int{5, 8, 2} {
+			w := s.Next()
+			w.Reset()
+			fr := 4096
+			w.Alloc(ty, ch, fr, fr)
+			lens := make([]int, ch)
+			ins := make([][]int64, ch)
+			for c := range lens {
+				lens[c] = fr
+				ins[c] = w.stamps(fr)
+			}
+			w.ReadStriped(0, ty, lens, make([]bool, ch))
+			w.WriteStriped(0, ty, ins, make([]bool, ch))
+			w.Read(0, ty, ch*fr)
+			w.Write(0, ty, w.stamps(ch*fr))
+			measured++
+		}
+	}
 	return types, map[string]int{"worlds": measured}
 }
 
